@@ -9,6 +9,7 @@ package main
 //   CAdd    the same call after inserting one server at some position
 //   CRemove the same call after removing one server
 //   CShare  load-share TEST (statistical, not a theorem): keys owned per server
+//   CNode   a live node: the list it routes with and the owners computed from it after failed requests (c13node.go)
 
 import (
 	"fmt"
@@ -518,6 +519,11 @@ func runC13(rc *runCtx) error {
 			"servers_owning_0": zero,
 			"extreme":          worst,
 		}
+	}
+
+	// ---- a live node: the list it routes with after requests to absent servers
+	if err := c13NodeCases(rc, fChg, note); err != nil {
+		return err
 	}
 
 	total := 0
